@@ -7,7 +7,7 @@ from .c08_c09_util import coq_eval_parts, coq_eval_sharded
 LEVEL = "proof"
 META = {
     "category": "proof",
-    "text": "Coq theorems over a state-passing model of the resolver (context counters, option gating, parameter-list and argument-list scans, load rules, assignment targets, scoping with the block table and lookupLexical's memoisation) against a declarative specification of the static rules: for ALL programs of the modelled syntax and ALL 2^6 option vectors a (rule, position) is reported iff the specification says the rule is violated there, for the 30 rules that need no name resolution beyond the parameter list itself (break/continue/return/load placement, if/for/while at top level, while, assignment targets, order and duplicates of arguments, the 255 limits, order and duplicates of parameters, bare *); while and top-level if/for/while are rejected exactly when While resp. TopLevelControl is off and no other option influences these rules; an option that is ON never causes a rejection (all six options, including Set and GlobalReassign); duplicate parameters are reported exactly as specified for every parameter list; a rejected program performs no effect in the pipeline model; and, over a model of Call/CallInternal's stack scan: with recursion off the active function frames have pairwise distinct code identities under ALL call sequences (direct, mutual, through built-in frames, through different closures of one definition) and a re-entering call fails. Tied to /repo on every run: generated programs with one of 70 planted constructs x option vectors through the real parse/resolve/compile/run pipeline with logging built-ins; the real syntax tree is translated into the model's syntax and the model's error list compared with the resolver's (exact list, vm_compute), the specification (incl. an executable scoping oracle) with the reported errors; call graphs reaching an active function with recursion off and on.",
+    "text": "Coq theorems over a state-passing model of the resolver (context counters, option gating, parameter-list and argument-list scans, load rules, assignment targets, scoping with the block table and lookupLexical's memoisation) against a declarative specification of the static rules: for ALL programs of the modelled syntax and ALL 2^6 option vectors a (rule, position) is reported iff the specification says the rule is violated there, for the 30 rules that need no name resolution beyond the parameter list itself (break/continue/return/load placement, if/for/while at top level, while, assignment targets, order and duplicates of arguments, the 255 limits, order and duplicates of parameters, bare *); while and top-level if/for/while are rejected exactly when While resp. TopLevelControl is off and no other option influences these rules; an option that is ON never causes a rejection (all six options, including Set and GlobalReassign); duplicate parameters are reported exactly as specified for every parameter list; a rejected program performs no effect in the pipeline model; and, over a model of Call/CallInternal's stack scan: with recursion off the active function frames have pairwise distinct code identities under ALL call sequences (direct, mutual, through built-in frames, through different closures of one definition) and a re-entering call fails. Tied to /repo on every run: generated programs with one of 73 planted constructs x option vectors through the real parse/resolve/compile/run pipeline with logging built-ins; the real syntax tree is translated into the model's syntax and the model's error list compared with the resolver's (exact list, vm_compute), the specification (incl. an executable scoping oracle) with the reported errors; call graphs reaching an active function with recursion off and on.",
     "note": "resolver_sound_complete is proved as _partial: the equivalence for the scoping rules (undefined name, set, top-level rebinding, load rebinding) is not proved against a declarative specification -- they are modelled executable (block table, memoisation), tied by exact correspondence on every run and checked against Spec.scope_viol as an oracle; accepted -> no violation is proved, the converse only for the proved rules. Trusted: Coq kernel + vm_compute; the harness and its translation of syntax.File into the model's syntax; rule classes are read from resolver messages by substring; the function-depth counter of the model stands for container().function != nil.",
     "technique": "Coq proof over executable model + differential correspondence on real syntax trees (vm_compute) + independent expectation oracle in the harness",
 }
@@ -152,7 +152,7 @@ def optstr(b):
 def run_resolve(ctx):
     hx = ctx.go_build("c09")
     quick = ctx.quick()
-    cmd = [hx, "resolve", "-seed", str(ctx.seed), "-n", "400" if quick else "5000",
+    cmd = [hx, "resolve", "-seed", str(ctx.seed), "-n", "420" if quick else "5000",
            "-vectors", "8" if quick else "64", "-coq", "30" if quick else "320"]
     rows = ctx.jsonl(cmd, timeout=1500)
     world = [r for r in rows if r.get("kind") == "world"][0]
@@ -200,7 +200,7 @@ def resolve_finish(ctx, summary, terms, refs, bad_model, bad_spec):
     return {
         "evaluations": summary["runs"], "distinct_nontrivial": summary["runs"],
         "programs": summary["programs"], "option_vectors": summary["vectors"], "plants": summary["plants"],
-        "rule": "programs from a grammar (defs with all parameter kinds, nested defs, lambdas with defaults, comprehensions with several clauses, if/for/break/continue, calls with positional/named/*/** arguments, loads) valid under every option vector; in 7 of 8 programs one construct is planted (70 kinds: every rule of the resolver, at top level / in a function / in a loop / in an if / in a nested def / in a def inside a loop, or wrapped in random expression contexts) x option vectors (quick: all-off, all-on and 6 seeded; thorough: all 64). Each run goes through the real ExecFileOptions pipeline with logging built-ins and a logging loader.",
+        "rule": "programs from a grammar (defs with all parameter kinds, nested defs, lambdas with defaults, comprehensions with several clauses, if/for/break/continue, calls with positional/named/*/** arguments, loads) valid under every option vector; in 7 of 8 programs one construct is planted (73 kinds: every rule of the resolver, at top level / in a function / in a loop / in an if / in a nested def / in a def inside a loop, or wrapped in random expression contexts) x option vectors (quick: all-off, all-on and 6 seeded; thorough: all 64). Each run goes through the real ExecFileOptions pipeline with logging built-ins and a logging loader.",
         "distribution": summary["dist"], "coq_programs": len(terms),
         "model_mismatches": len(bad_model), "spec_mismatches": len(bad_spec),
         "expectation_mismatches": summary["problem_programs"],
